@@ -135,6 +135,7 @@ void World::checkPlansStorage(int i, const Op& op, const Obs& before) {
 			const auto& now = s.obs.plans[size_t(g)];
 			const auto& want = model[size_t(g)];
 			checked("C07.contents");
+			if (!now.empty() && now.back().origin == -99) { violate("C07.links", h.role + ": iterating the plan of region " + std::to_string(g) + " yields more tasks than the pool can hold: the list is cyclic", i); return; }
 			if (!step && exact) {
 				if (!(now == want)) {
 					std::snprintf(b, sizeof b, "%s: after %s the plan of region %d holds %zu task(s); the edits applied to its previous content give %zu (order / origin / destination / kind / payload must match)", h.role.c_str(), opName(op.kind), g, now.size(), want.size());
